@@ -39,93 +39,156 @@ def _getattr_visit(c: ast.expr, visitor: str) -> str | None:
     return None
 
 
+FIRST = "__first_visit_method__"
+
+
 def r_dispatch(ck: Checker, f: Func, rule: str = "R-DISPATCH") -> None:
+    """accept(): the method called is decided as a function of (visitor.strict, own class has a visit method, some MRO class
+    has one).  The MRO search loop is summarised (first class with a method wins) after its body has been decided; the
+    summary is interpreted in place of the loop, so every spelling (break + fallback, return inside the loop, for/else,
+    candidate tuple chosen first) reduces to the same table."""
+    import copy
+    from ..normalize import _Subst
     fn = f.node
     visitor = fn.args.args[1].arg
     body = strip_docstring(fn.body)
-    leaves = decision_tree(body)
     k_strict = f"{visitor}.strict"
     own = ("self.__class__", "type(self)")
-    bad = []
+    loop_kinds: list[str] = []
+    problems: list[str] = []
+
+    def G(cls_txt: str) -> ast.expr:
+        return ast.parse(f"getattr({visitor}, f'visit_{{{cls_txt}.__name__}}', None)", mode="eval").body
+
+    def classify(it: ast.expr) -> str | None:
+        base = it
+        if isinstance(base, (ast.Tuple, ast.List)) and len(base.elts) == 1 and norm(base.elts[0]) in own:
+            return "own"
+        if isinstance(base, ast.Subscript) and isinstance(base.slice, ast.Slice):
+            sl = base.slice
+            if sl.step is not None or sl.lower is not None or (sl.upper is not None and norm(sl.upper) != "-1"):
+                problems.append(f"MRO sliced with {norm(base.slice)}")
+            base = base.value
+        if (isinstance(base, ast.Call) and dotted(base.func) in ("getmro", "inspect.getmro") and len(base.args) == 1 and norm(base.args[0]) in own) or \
+                (isinstance(base, ast.Attribute) and base.attr == "__mro__" and norm(base.value) in own) or \
+                (isinstance(base, ast.Call) and isinstance(base.func, ast.Attribute) and base.func.attr == "mro" and norm(base.func.value) in own):
+            return "mro"
+        return None
+
+    def hook(lp: ast.stmt, assign: dict) -> object:
+        if not isinstance(lp, ast.For) or not isinstance(lp.target, ast.Name):
+            raise Unsupported("accept: loop is not a for loop over candidate classes", lp)
+        kind = classify(lp.iter)
+        if kind is None:
+            if "mro" in norm(lp.iter).lower() or "__class__" in norm(lp.iter):
+                problems.append(f"non-strict visitor iterates {norm(lp.iter)[:50]} (not the MRO in order)")
+                kind = "mro"
+            else:
+                raise Unsupported(f"accept: candidate classes {norm(lp.iter)[:60]} not recognised", lp)
+        loop_kinds.append(kind)
+        cv = lp.target.id
+        inner = decision_tree(lp.body, resolve=True)
+        key = k_none(norm(G(cv)))
+        mv = None
+        form = None
+        for il in inner:
+            if set(il.assign) - {key}:
+                raise Unsupported(f"accept: candidate loop decides on {sorted(il.assign)}", lp)
+            stores = [st for st in il.stmts if isinstance(st, ast.Assign) and len(st.targets) == 1 and isinstance(st.targets[0], ast.Name)
+                      and _getattr_visit(st.value, visitor) == cv]
+            if stores:
+                mv = stores[-1].targets[0].id
+            if key not in il.assign:
+                problems.append("the candidate loop does not test whether the class has a visit method")
+                continue
+            if not il.assign[key]:  # this class has a method
+                if il.outcome == "break":
+                    form = "break"
+                elif il.outcome == "return" and il.value is not None and norm(il.value) == f"{norm(G(cv))}(self)":
+                    form = "return"
+                else:
+                    problems.append("MRO loop does not stop at the first class that has a visit_<Class> method")
+            elif il.outcome not in ("fall", "continue"):
+                problems.append("MRO loop stops at a class without a visit method")
+        if form is None:
+            problems.append("MRO loop does not stop at the first class that has a visit_<Class> method")
+            form = "break"
+        first: ast.expr = G(norm(ast.Name(id="self.__class__"))) if kind == "own" else ast.Name(id=FIRST, ctx=ast.Load())
+        found_test: ast.expr = ast.Compare(left=copy.deepcopy(first), ops=[ast.IsNot()], comparators=[ast.Constant(value=None)]) if kind == "own" \
+            else ast.Name(id="__some_mro_class_has_method__", ctx=ast.Load())
+        hit: list[ast.stmt] = []
+        miss: list[ast.stmt] = []
+        if mv is not None:
+            hit.append(ast.Assign(targets=[ast.Name(id=mv, ctx=ast.Store())], value=copy.deepcopy(first)))
+            miss.append(ast.Assign(targets=[ast.Name(id=mv, ctx=ast.Store())], value=ast.Constant(value=None)))  # last lookup gave None
+        if form == "return":
+            hit.append(ast.Return(value=ast.Call(func=copy.deepcopy(first), args=[ast.Name(id="self", ctx=ast.Load())], keywords=[])))
+        miss += copy.deepcopy(lp.orelse)
+        summary = ast.If(test=found_test, body=hit or [ast.Pass()], orelse=miss or [ast.Pass()])
+        ast.copy_location(summary, lp)
+        return [ast.fix_missing_locations(summary)]
+
+    leaves = decision_tree(body, resolve=True, loop_hook=hook, preset={k_none(FIRST): False})
+    k_own = k_none(norm(G("self.__class__")))
+    k_own2 = k_none(norm(G("type(self)")))
+    k_found = "__some_mro_class_has_method__"
+    bad = list(problems)
     n_strict = n_loose = 0
-    mvar = None
     for lf in leaves:
-        if k_strict not in lf.assign:
+        a = lf.assign
+        if k_strict not in a:
             bad.append("dispatch does not branch on visitor.strict")
             continue
-        loops = [st for st in lf.stmts if isinstance(st, ast.For)]
-        gets = [st for st in lf.stmts if isinstance(st, ast.Assign) and _getattr_visit(st.value, visitor) is not None]
-        if lf.assign[k_strict]:
+        unknown = set(a) - {k_strict, k_own, k_own2, k_found, k_none(FIRST)}
+        foreign = [k for k in unknown if k.startswith(f"is(None,getattr({visitor}, f'visit_{{") and k.endswith(".__name__}', None))")]
+        if foreign:
+            who = foreign[0][len(f"is(None,getattr({visitor}, f'visit_{{"):-len(".__name__}', None))")]
+            bad.append(f"{'strict' if a[k_strict] else 'non-strict'} visitor looks up visit_<{who}> (not the own class / the MRO in order)")
+            continue
+        if unknown:
+            # guards that do not influence what is called (trace logging) are tolerated
+            same = [l2 for l2 in leaves if all(l2.assign.get(k) == v for k, v in a.items() if k not in unknown) and set(l2.assign) - unknown == set(a) - unknown]
+            if len({(l2.outcome, l2.val()) for l2 in same}) > 1:
+                raise Unsupported(f"accept decides on {sorted(unknown)}", fn)
+        if lf.outcome != "return" or lf.value is None:
+            bad.append(f"a path ends with {lf.outcome}")
+            continue
+        got = norm(lf.value)
+        if a[k_strict]:
             n_strict += 1
-            if loops:
+            if k_found in a:
                 bad.append("strict visitor walks the MRO")
-            if len(gets) != 1 or _getattr_visit(gets[0].value, visitor) not in own:
-                bad.append(f"strict visitor looks up {[_getattr_visit(g.value, visitor) for g in gets]} instead of visit_<own class>")
-            else:
-                mvar = norm(gets[0].targets[0])
+                continue
+            own_none = a.get(k_own, a.get(k_own2))
+            if own_none is None:
+                bad.append("strict visitor does not look up visit_<own class>")
+            elif own_none and got != f"{visitor}.generic_visit(self)":
+                bad.append(f"strict, no method for the own class: returns {got}")
+            elif not own_none and got not in (f"{norm(G('self.__class__'))}(self)", f"{norm(G('type(self)'))}(self)"):
+                bad.append(f"strict, own method exists: returns {got}")
         else:
             n_loose += 1
-            if gets:
-                bad.append("non-strict visitor looks up only the own class")
-            if len(loops) != 1:
-                bad.append(f"non-strict visitor: {len(loops)} loops over the MRO")
-                continue
-            lp = loops[0]
-            it = _resolve(fn, lp.iter)
-            base = it
-            if isinstance(base, ast.Subscript) and isinstance(base.slice, ast.Slice):
-                sl = base.slice
-                if sl.step is not None or sl.lower is not None or (sl.upper is not None and norm(sl.upper) != "-1"):
-                    bad.append(f"MRO sliced with {norm(base.slice)}")
-                base = _resolve(fn, base.value)
-            mro_ok = (isinstance(base, ast.Call) and dotted(base.func) in ("getmro", "inspect.getmro") and norm(base.args[0]) in own) or \
-                (isinstance(base, ast.Attribute) and base.attr == "__mro__" and norm(base.value) in own) or \
-                (isinstance(base, ast.Call) and isinstance(base.func, ast.Attribute) and base.func.attr == "mro" and norm(base.func.value) in own)
-            if not mro_ok:
-                bad.append(f"non-strict visitor iterates {norm(it)[:50]} (not the MRO in order)")
-                continue
-            cv = norm(lp.target)
-            inner = decision_tree(lp.body)
-            ok = False
-            for il in inner:
-                g = [st for st in il.stmts if isinstance(st, ast.Assign) and _getattr_visit(st.value, visitor) == cv]
-                if len(g) != 1:
-                    ok = False
-                    break
-                mv = norm(g[0].targets[0])
-                key = k_none(mv)
-                if key not in il.assign:
-                    ok = False
-                    break
-                found = not il.assign[key]
-                if found and il.outcome != "break":
-                    ok = False
-                    break
-                if not found and il.outcome not in ("fall", "continue"):
-                    ok = False
-                    break
-                ok = True
-                mvar = mv
-            if not ok or lp.orelse:
-                bad.append("MRO loop does not stop at the first class that has a visit_<Class> method")
+            if k_found not in a:
+                bad.append("non-strict visitor looks up only the own class" if (k_own in a or k_own2 in a) else "non-strict visitor does not search the MRO")
+            elif a[k_found] and got != f"{FIRST}(self)":
+                bad.append(f"non-strict, a class of the MRO has a method: returns {got}")
+            elif not a[k_found] and got != f"{visitor}.generic_visit(self)":
+                bad.append(f"non-strict, no class has a method: returns {got}")
     if not (n_strict and n_loose):
         bad.append("both a strict and a non-strict arm are required")
     what = ("accept branches on visitor.strict: strict looks up only visit_<own class>; otherwise the MRO is walked in order and the "
             "first class with a visit_<Class> method wins")
-    if bad:
-        ck.violation(rule, f, fn, what, evaluations=len(leaves), construct=f"accept: {bad[0]}")
+    what2 = "accept falls back to generic_visit when no method was found and calls the chosen method with the node"
+    first_kind = [b for b in bad if "returns" not in b and "ends with" not in b]
+    second_kind = [b for b in bad if b not in first_kind]
+    if first_kind:
+        ck.violation(rule, f, fn, what, evaluations=len(leaves), construct=f"accept: {first_kind[0]}")
     else:
         ck.holds(rule, f, fn, what, evaluations=len(leaves))
-    # fallback + call
-    what = "accept falls back to generic_visit when no method was found and calls the chosen method with the node"
-    rets = [s for s in body if isinstance(s, ast.Return)]
-    fb = [st for st in body if isinstance(st, ast.If) and mvar and norm(st.test) in (f"{mvar} is None", f"not {mvar}")
-          and len(st.body) == 1 and isinstance(st.body[0], ast.Assign) and norm(st.body[0].targets[0]) == mvar
-          and norm(st.body[0].value) == f"{visitor}.generic_visit" and not st.orelse]
-    if mvar and len(fb) == 1 and len(rets) == 1 and rets[0].value is not None and norm(rets[0].value) == f"{mvar}(self)":
-        ck.holds(rule, f, rets[0], what)
+    if second_kind:
+        ck.violation(rule, f, fn, what2, evaluations=len(leaves), construct=f"accept: {second_kind[0]}")
     else:
-        ck.violation(rule, f, fn, what, construct="accept: generic_visit fallback / final call not recognised")
+        ck.holds(rule, f, fn, what2, evaluations=len(leaves))
 
 
 def r_transform_path(ck: Checker, f: Func, visit_name: str = "visit", rule: str = "R-TRANSFORM-PATH") -> None:
@@ -234,6 +297,26 @@ def r_transform_path(ck: Checker, f: Func, visit_name: str = "visit", rule: str 
         if isinstance(st, ast.For) and marked and any(isinstance(c, ast.Call) and isinstance(c.func, ast.Attribute) and c.func.attr == "pop" for c in walk_body(st.body)):
             if f"- {marked}" in norm(_resolve(fn, st.iter)) or f"not in {marked}" in norm(st):
                 ok_filter = True
+    if not ok_filter and marked:
+        # the result is a new mapping filled by a loop over the marked names
+        rets = [r for r in walk_body(tail) if isinstance(r, ast.Return) and isinstance(r.value, ast.Name)]
+        for r in rets:
+            rv = r.value.id
+            init = [st for st in tail if isinstance(st, (ast.Assign, ast.AnnAssign)) and norm(st.targets[0] if isinstance(st, ast.Assign) else st.target) == rv
+                    and isinstance(st.value, ast.Dict) and not st.value.keys]
+            fills = [(lp2, st) for lp2 in tail if isinstance(lp2, ast.For) for st in walk_body(lp2.body)
+                     if isinstance(st, ast.Assign) and isinstance(st.targets[0], ast.Subscript) and norm(st.targets[0].value) == rv]
+            outside = [st for st in walk_body(tail) if isinstance(st, ast.Assign) and isinstance(st.targets[0], ast.Subscript) and norm(st.targets[0].value) == rv
+                       and not any(st is s2 for _, s2 in fills)]
+            if init and fills and not outside and all(norm(lp2.iter) in (marked, f"sorted({marked})") and norm(st.targets[0].slice) == norm(lp2.target) for lp2, st in fills):
+                ok_filter = True
+    if not ok_filter:
+        rets = [r for r in walk_body(tail) if isinstance(r, ast.Return) and r.value is not None and not (isinstance(r.value, ast.Dict) and not r.value.keys)]
+        unfiltered = changes is not None and any(norm(r.value) == changes for r in rets) and not any(
+            isinstance(c, ast.Call) and isinstance(c.func, ast.Attribute) and c.func.attr in ("pop", "popitem") or isinstance(c, ast.Delete) for c in walk_body(tail)) \
+            and not any(isinstance(st, (ast.Assign, ast.AnnAssign)) and norm(st.targets[0] if isinstance(st, ast.Assign) else st.target) == changes for st in tail)
+        if not unfiltered and marked and any(marked in norm(st) for st in tail):
+            raise Unsupported("_transform_children: selection of the changed fields not recognised", fn)
     (ck.holds if ok_filter else ck.violation)(rule, f, fn, what, **({} if ok_filter else {"construct": "_transform_children: unmarked fields are not removed from the result"}))
     what = "_transform_children converts rebuilt sequences to tuples"
     ok_tuple = any(isinstance(c, ast.Call) and dotted(c.func) == "tuple" for st in tail for c in walk_body([st]) if isinstance(c, ast.Call)) or \
